@@ -442,7 +442,14 @@ class StreamProfile:
 
 def _run_program(ctx, profile, monitors, rng, nprog):
     try:
-        if profile.templates and rng.random() < profile.template_prob:
+        rot = getattr(profile, "rotation", None)
+        rot_n = getattr(profile, "rotation_n", 3)
+        if rot and nprog <= rot_n:
+            # the first programs of every shard walk through the template families in rotation, so that
+            # every family is present in every run whatever the random mix
+            gp = rot[(ctx.shard * rot_n + nprog - 1) % len(rot)](rng)
+            ctx.stat("programs.rotation")
+        elif profile.templates and rng.random() < profile.template_prob:
             gp = profile.templates(rng)
         else:
             gp = gen_program(rng, profile.knobs_fn(rng))
